@@ -49,10 +49,10 @@ PYAGREE = {
     'C16': ['AddressValidate', 'AddressInit'],
     'C17': ['LayerTxHelpers', 'LayerTx'],
     'C19': ['SockOpts'],
-    'C20': ['AddressFns', 'SockOpts'],
+    'C20': ['AddressFns', 'SockOpts', 'SockGuards'],
 }
 # leaves that are finished and committed
-PYAGREE_READY = {'LayerTxWhole', 'MiscFrame', 'LayerProcess', 'LayerTx', 'LayerRx', 'LayerSend', 'LayerTxHelpers', 'LayerQueues', 'Exec2Bridge', 'SockOpts', 'AddressFns', 'AddressValidate', 'AddressInit', 'Pdu', 'MiscFd', 'MiscFc', 'MiscTimer'}
+PYAGREE_READY = {'SockGuards', 'LayerTxWhole', 'MiscFrame', 'LayerProcess', 'LayerTx', 'LayerRx', 'LayerSend', 'LayerTxHelpers', 'LayerQueues', 'Exec2Bridge', 'SockOpts', 'AddressFns', 'AddressValidate', 'AddressInit', 'Pdu', 'MiscFd', 'MiscFc', 'MiscTimer'}
 
 
 def pyagree_theorems(mod):
